@@ -66,6 +66,22 @@ def step (s : St) (line : String) : St × String :=
       | some sn => (s, showSet (members sn.vals (UInt64.ofNat c) sn.capV false))
       | none => (s, "bad-op")
     | _, _ => (s, "bad-op")
+  | ["rootinfo", h, chain] =>
+    -- LoadRootChainInfo(chain, h): the committee of height h (0 = latest) and of the height before it
+    match h.toNat?, chain.toNat? with
+    | some hh, some c =>
+      let hh := if hh == 0 || hh > s.version then s.version else hh
+      let last := if hh == 1 then 1 else hh - 1
+      match s.snaps.lookup hh, s.snaps.lookup last with
+      | some sn, some sl =>
+        -- either derivation failing (no validators) fails the whole call with that error
+        let cur := showSet (members sn.vals (UInt64.ofNat c) sn.capV false)
+        let lst := showSet (members sl.vals (UInt64.ofNat c) sl.capV false)
+        if cur.startsWith "err:" then (s, cur)
+        else if lst.startsWith "err:" then (s, lst)
+        else (s, "cur " ++ cur ++ " last " ++ lst)
+      | _, _ => (s, "bad-op")
+    | _, _ => (s, "bad-op")
   | _ => (s, "bad-op")
 
 end Driver.C13
